@@ -17,6 +17,7 @@ ASSUMPTIONS = ["bounded model enumeration inside the fake (real pycryptosat with
                "there is no fault or schedule on which the truth of C03 depends: what is sampled is the design, the transport and the model order"]
 BUDGET = {"quick": 300, "thorough": 900}
 RUNS = {"quick": 2000, "thorough": 120000}
+THOROUGH_RUNS = 5000        # the thorough tier of this (expensive) check: a fixed range sized to stay within ~15 minutes
 MODEL_CAP = {"quick": 150, "thorough": 5000}
 
 
